@@ -238,6 +238,7 @@ type callRT struct {
 	started bool
 	arg     *gateArg
 	hookRel chan struct{} // release of client.send.enter
+	entered chan struct{} // client.send.enter reached
 	exited  chan struct{} // client.send.exit fired
 	done    chan *client.Call
 	ret     chan string // blocking callers: class of the returned error / payload
@@ -249,6 +250,7 @@ type callRT struct {
 	hasRet  bool
 	seq     int64 // registered seq (-1 unknown)
 	phase   string
+	ctxDone bool // the harness ended this call's own context
 }
 
 type rig struct {
@@ -315,7 +317,7 @@ func newRig(id string, calls []csmCall, bytesMode bool) (*rig, error) {
 	simMu.Unlock()
 	r.cl.RegisterServerMessageChan(r.pushCh)
 	for i, c := range calls {
-		rt := &callRT{spec: c, hookRel: make(chan struct{}, 1), exited: make(chan struct{}, 1), done: make(chan *client.Call, 10), ret: make(chan string, 1), seq: -1, phase: "new"}
+		rt := &callRT{spec: c, hookRel: make(chan struct{}, 1), entered: make(chan struct{}, 1), exited: make(chan struct{}, 1), done: make(chan *client.Call, 10), ret: make(chan string, 1), seq: -1, phase: "new"}
 		rt.arg = &gateArg{ID: i, gate: make(chan error, 1), at: make(chan struct{}, 1)}
 		r.calls = append(r.calls, rt)
 		r.byMethod[fmt.Sprintf("%s/m%d", id, i)] = rt
@@ -343,6 +345,10 @@ func init() {
 		}
 		switch point {
 		case "client.send.enter":
+			select {
+			case rt.entered <- struct{}{}:
+			default:
+			}
 			<-rt.hookRel
 		case "client.send.exit":
 			rt.exited <- struct{}{}
@@ -665,6 +671,14 @@ func (r *rig) exec1(id string, e csmEvent) (bool, error) {
 		}
 		return true, nil
 	case "ctx":
+		if rt.spec.kind == 'C' && !rt.started && rt.phase == "new" && !gone {
+			// the caller's context ends before send has registered the call: start the call, wait until its
+			// send goroutine stands at client.send.enter (nothing registered yet), then cancel
+			r.start(id, e.c)
+			if err := waitOn(rt.entered, "send to reach client.send.enter"); err != nil {
+				return true, err
+			}
+		}
 		if rt.spec.kind == 'G' || rt.hasRet || !rt.started {
 			return false, nil
 		}
@@ -672,6 +686,7 @@ func (r *rig) exec1(id string, e csmEvent) (bool, error) {
 			return false, nil
 		}
 		rt.cancel()
+		rt.ctxDone = true
 		r.modelEvs = append(r.modelEvs, e.enc())
 		r.awaitRet(rt, e.c, false)
 		return true, nil
@@ -919,6 +934,12 @@ func csmRunOne(o *common.Out, id string, calls []csmCall, evs []csmEvent, finish
 	}
 	obs := r.observe()
 	r.replyOracle(obs)
+	// isolation oracle (C05/C06): only a call whose own context ended may complete with a context error
+	for i, f := range strings.Fields(strings.SplitN(obs, " | ", 2)[0]) {
+		if i < len(r.calls) && strings.HasSuffix(f, "ctx") && !r.calls[i].ctxDone {
+			r.fail("foreign-ctx-error", fmt.Sprintf("call %d completed with a context error although its own context never ended", i))
+		}
+	}
 	// model input: the calls and the events that actually ran
 	var cs []string
 	for _, c := range calls {
